@@ -218,7 +218,9 @@ CLAIMED = {
              "thermal, networks, boilers and their combinations: renewable part of the nearby supply plus on-site electricity "
              "used for DHW; C15_heat_pump), C15_biomass_nearby (one biomass kind with nearby carriers only: what the others "
              "do not supply of the demand is attributed to the biomass), C15_biomass_mixed (biomass with a non-nearby "
-             "carrier: declared output energy counts) and C15_biomass_mixed_without_output (error instead of a number). "
+             "carrier: declared output energy counts), C15_biomass_mixed_without_output (error instead of a number) and "
+             "C15_two_biomasses (both kinds: the declared output of each kind weighted with its own renewable fraction; error "
+             "without declared output). "
              "PARTIAL: the range [0,1] for consistent demands and the invariance under non-EPB and other services' "
              "non-electric consumption are decided by the differential run only: model vs implementation on every generated "
              "building, and those statements evaluated on implementation outputs.",
